@@ -468,7 +468,7 @@ impl CredentialStore for RecStore {
 // RecUv
 // ---------------------------------------------------------------------------------------------
 
-#[derive(Clone, Copy, Debug, PartialEq, Eq)]
+#[derive(Clone, Copy, Debug, PartialEq, Eq, Hash)]
 pub enum UvOutcome {
     Check { presence: bool, verification: bool },
     Err(u8),
